@@ -127,6 +127,81 @@ def judge_groups(ctx: Ctx, groups, kind="c01"):
     return lines
 
 
+def repo_test_traces(ctx: Ctx):
+    """code -> spec from the repository's own tests: run the multipart / form / request tests under the
+    recording plugin and turn every MultipartDecoder session into a trace group."""
+    import json
+    import os
+    import subprocess
+    import sys
+
+    from ..core import REPO, VERIF, cps
+
+    out = os.path.join(ctx.tmp, "repo-sessions.json")
+    env = dict(os.environ, VERIF_TRACE_OUT=out, PYTHONPATH=VERIF + os.pathsep + os.path.join(REPO, "src"),
+               PYTHONDONTWRITEBYTECODE="1")
+    files = ["tests/sansio/test_multipart.py", "tests/test_formparser.py", "tests/test_wrappers.py", "tests/test_test.py"]
+    p = subprocess.run([sys.executable, "-m", "pytest", "-q", "-p", "no:cacheprovider", "-p", "harness.pytest_trace_plugin",
+                        "-x", "--no-header", "-n", "0", *files], cwd=REPO, env=env, capture_output=True, text=True, timeout=600)
+    if not os.path.exists(out):
+        raise MachineryErrorLocal("recording the repository's tests produced no trace file:\n" + (p.stdout + p.stderr)[-1500:])
+    sessions = json.load(open(out))
+    lines, t = [], 0
+    for s in sessions:
+        chunks = [bytes(st["chunk"]) for st in s["steps"] if st["chunk"] is not None]
+        wire = b"".join(chunks)
+        bnd = bytes(s["bnd"])
+        if not wire or len(wire) > 40000:
+            continue
+        cfg = {"t": f"repo{t}", "op": "cfg", "bnd": list(bnd), "wire": list(wire), "ref": mp.ref_of(wire, bnd),
+               "formref": {"err": "skip", "fields": [], "files": []}, "modelhdr": False, "ctype": "multipart"}
+        steps, fed, cursor, eof_seen = [], 0, 0, False
+        for st in s["steps"]:
+            if st["chunk"] is not None:
+                fed += len(st["chunk"])
+            evs = []
+            for e in st["ev"]:
+                if e["k"] == "P":
+                    evs.append({"k": "P", "kind": e["kind"], "name": cps(e["name"] if e["name"] is not None else "\x00None"),
+                                "hasfn": e["kind"] == "file", "fname": cps(e["fname"]) if e["kind"] == "file" and e["fname"] is not None else [],
+                                "hdr": [[cps(k), cps(v)] for k, v in e["hdr"]]})
+                elif e["k"] == "D":
+                    enc, cursor = mp._slice_or_lit(bytes(e["data"]), wire, cursor)
+                    enc.update({"k": "D", "more": e["more"]})
+                    evs.append(enc)
+                elif e["k"] == "EPI":
+                    eof_seen = True
+            steps.append({"fed": fed, "buflen": st["buflen"], "ev": evs})
+        complete = eof_seen or s["err"] != ""
+        if not complete:
+            # the test stopped feeding before the end: only the per-step clauses apply
+            cfg["ref"] = dict(cfg["ref"], err="partial") if cfg["ref"]["err"] == "" and False else cfg["ref"]
+        run = {"t": f"repo{t}", "i": 0, "op": "run" if complete else "runpart", "api": "repo-tests",
+               "chunks": [], "maxmem": -1 if s["maxmem"] is None else s["maxmem"],
+               "maxparts": -1 if s["maxparts"] is None else s["maxparts"], "steps": steps, "err": s["err"], "test": s["test"][:120]}
+        lines += [cfg, run]
+        t += 1
+    ctx.notes["repo_test_sessions"] = t
+    if t < 20:
+        raise MachineryErrorLocal(f"only {t} decoder sessions recorded from the repository's tests")
+    rejects = ctx.judge(AREA, "MultipartTrace", lines, batch=2000)
+    bykey = {ln["t"]: ln for ln in lines if ln["op"] != "cfg"}
+    cfgs = {ln["t"]: ln for ln in lines if ln["op"] == "cfg"}
+    for r in rejects:
+        ln, c = bykey[r["t"]], cfgs[r["t"]]
+        ctx.violation(f"{r['clause']}:repo-tests", r["clause"],
+                      {"wire": c["wire"], "bnd": c["bnd"], "api": "decoder", "chunks": [len(x["chunk"]) for x in []],
+                       "test": ln["test"], "maxmem": ln["maxmem"], "maxparts": ln["maxparts"], "buffer_size": None, "plan": None,
+                       "steps_fed": [s["fed"] for s in ln["steps"]]}, kind="c01-repo")
+    for ln in lines:
+        if ln["op"] != "cfg":
+            ctx.count(1, ("repo", ln["t"]))
+
+
+class MachineryErrorLocal(Exception):
+    pass
+
+
 def export_model_wires(ctx: Ctx, cfgs):
     wires = []
     for cfg in cfgs:
@@ -163,6 +238,12 @@ def run(ctx: Ctx):
     ctx.notes["model_wires_exported"] = len(wires)
     groups = build_groups(ctx, wires)
     judge_groups(ctx, groups)
+    # 4. the repository's own tests, recorded and judged step by step
+    try:
+        repo_test_traces(ctx)
+    except MachineryErrorLocal as e:
+        from ..tlc import MachineryError
+        raise MachineryError(str(e))
 
 
 def replay(ctx: Ctx, data):
